@@ -42,7 +42,7 @@ func projects() []*project {
 	td := filepath.Join(common.Root, "props", "c18", "testdata")
 	return []*project{
 		{Name: "multi", Quick: true,
-			About:     "follow-schema exec + follow-schema resolvers, 7 schema files in 4 directories, naming.graphql with the identifier classes (initialism prefix APIKey/HTTPEndpoint/URLInfo, inner initialism OAuthToken/userID/xAPIKey, underscores leading/embedded/trailing, lower-case start, keyword-like Type/Func/type/func/range/var) each with resolver fields, extend type across files, directives declared in 4 files, generated models + autobind of 2 hand-written packages, models/directives config",
+			About:     "follow-schema exec + follow-schema resolvers, 7 schema files in 4 directories, naming.graphql with the identifier classes (initialism prefix APIKey/HTTPEndpoint/URLInfo, inner initialism OAuthToken/userID/xAPIKey, underscores leading/embedded/trailing, lower-case start, keyword-like Type/Func/type/func/range/var) each with resolver fields, extend type across files, directives declared in 4 files, generated models + autobind of 2 hand-written packages AND of the package that receives models_gen.go (probe/graph/model, with a hand-written hand.go next to the generated file), models/directives config",
 			Files:     readTree(filepath.Join(td, "multi")),
 			StartDirs: [3]string{".", "schema/shop", "schema/shop/extra"}},
 		{Name: "input", Quick: true,
